@@ -105,6 +105,43 @@ Theorem C01_mirror_under_write_faults : forall P gfh ops,
 Proof. exact mirror_f. Qed.
 Print Assumptions C01_mirror_under_write_faults.
 
+(* ... and with failing rollbacks.  [wf_hist_f] also allows OHeadersR p now hs k:
+   while the handler switches to a heavier branch, the k-th
+   BlockHeaders.RollbackLastBlock fails the way the store fails when the
+   header file cannot be truncated (index rolled back, bytes still in the
+   file); handleHeadersMsg panics, the process is started again, the stores'
+   start-up recovery repairs the file and a new block manager is built.  The
+   three theorems above therefore hold for histories with such crashes too;
+   this one names it. *)
+Theorem C01_chain_valid_under_rollback_faults : forall P gfh pre post,
+  wf_params P -> no_collision P (pre ++ post) -> wf_hist_f P (pre ++ post) ->
+  let s := run P (init_state P gfh) pre in
+  trap s = false /\
+  (exists times, length times = length (chain s) /\
+    Forall (fun t => t ∈ hist_nows pre) (tail times) /\
+    valid_chain P (zip (chain s) times) = true) /\
+  WM (hl s) (chain s) /\ nextCp s = find_next_cp P (tip_height s) /\
+  0 < zlen (fchain s) <= zlen (chain s) /\ ftipVar s = zlen (fchain s) - 1.
+Proof. exact chain_valid_rollback_faults. Qed.
+Print Assumptions C01_chain_valid_under_rollback_faults.
+
+Example C01_rollback_faults_nonvacuous :
+  let P := ex_P [] in
+  wf_params P /\ no_collision P exr_ops /\ wf_hist_f P exr_ops /\
+  map (fun k => let s := run P (init_state P 7) (take k exr_ops) in
+                (map hid (chain s), map nheight (hl s), syncPeer s, length (peers s), events s))
+      [2; 3; 5]%nat =
+    [ ([100; 101; 102], [0; 1; 2], Some 1, 1%nat, []);
+      ([100; 101], [1], None, 0%nat, []);                      (* crashed: 102 gone, not announced, no peers *)
+      ([100; 101; 202; 203], [1; 2; 3], Some 1, 1%nat, []) ].  (* nothing left to roll back: no fault strikes *)
+Proof.
+  split; [|split; [|split]].
+  - split; cbn; lia.
+  - apply no_collision_b_sound. vm_compute. reflexivity.
+  - split; [repeat constructor; vm_compute; reflexivity|vm_compute; discriminate].
+  - vm_compute. reflexivity.
+Qed.
+
 (* every fault-free history is such a history, and a fault that does not
    strike (k = 0) is no fault *)
 Theorem C01_write_faults_conservative : forall P ops now p hs s,
